@@ -26,7 +26,8 @@ def rewriteFirst (cols : List FieldDef) (sets : List (Bytes × Sql.VExpr)) : Nat
 
 /-- the loop of `evalUpdate` through a prefix `ids` of rewritable rows, whatever follows -/
 theorem evalUpdate_go_prefix (db : Engine.DB) (table : Bytes) (pt sch : Levels) (schema : List FieldDef)
-    (hsch : schemaOf sch table = some schema) (sets : List (Bytes × Sql.VExpr)) (tail : List (Nat × List Val)) :
+    (hsch : schemaOf sch table = some schema) (sets : List (Bytes × Sql.VExpr)) (tail : List (Nat × List Val))
+    (hnames : checkColumns schema (sets.map fun p => Engine.bytesToName p.1) = none) :
     ∀ (ids : List (Nat × List Val)) (s : Store) (tbls : List (Bytes × Levels)) (t : Levels)
       (batch : List WalRec),
       Cat s pt sch tbls → (table, t) ∈ tbls → (ids.map (·.1)).Nodup →
@@ -58,11 +59,11 @@ theorem evalUpdate_go_prefix (db : Engine.DB) (table : Bytes) (pt sch : Levels) 
     obtain ⟨s1, l, d, _, _, e1, hc1, _⟩ := update_cat h table t ht schema hsch r.1
       (sets.map fun p => Engine.bytesToName p.1)
       (sets.map fun p => match p.2 with | .lit l => Engine.litToVal l | .col _ => Val.null)
-      c hc hck m buf hdec henc' hsz
+      hnames c hc hck m buf hdec henc' hsz
     have hlive1 : live (setVal t r.1 s.hdr.nextLSN buf) =
         (live t).map (fun c => if c.key == r.1 then { c with val := buf } else c) :=
       update_live t r.1 s.hdr.nextLSN buf
-    obtain ⟨s', t', logs', ego, hc', hl'⟩ := evalUpdate_go_prefix db table pt sch schema hsch sets tail
+    obtain ⟨s', t', logs', ego, hc', hl'⟩ := evalUpdate_go_prefix db table pt sch schema hsch sets tail hnames
       rest s1 (setTable tbls table (setVal t r.1 s.hdr.nextLSN buf)) (setVal t r.1 s.hdr.nextLSN buf)
       (batch ++ [⟨c_OpUpdate, s.hdr.nextLSN, l.off, r.1, buf⟩]) hc1 (mem_setTable_self _ ht) hnd.2
       (fun r' hr' => by
@@ -242,7 +243,8 @@ theorem rows_rewriteFirst (schema : List FieldDef) (sets : List (Bytes × Sql.VE
 rewritten, the next one `bad` cannot: the spec refuses the statement (nothing changes), the model's
 `evalUpdate` fails with the store's error AFTER having rewritten the rows `pre`: the log is untouched,
 and the store abstracts to the spec database in which exactly the first `pre.length` selected rows of
-the table are rewritten. -/
+the table are rewritten.  (The SET columns pass the statement's check, `hset`: an unknown or repeated
+SET column is refused before any row is rewritten - `UpdRefusal.names`.) -/
 theorem evalUpdate_kth_refused_spec (db : Engine.DB) (pt sch : Levels) (tbls : List (Bytes × Levels))
     (sdb : Spec.SDB) (h : Abs db.store pt sch tbls sdb) (table : Bytes)
     (sets : List (Bytes × Sql.VExpr)) (w : Option Sql.Cond)
@@ -250,6 +252,7 @@ theorem evalUpdate_kth_refused_spec (db : Engine.DB) (pt sch : Levels) (tbls : L
     (hvalid : ∀ p ∈ sets, ∀ l, p.2 = .lit l → ValidVal (Engine.litToVal l))
     (st : Spec.STable) (sel : List Bool) (pre : List (List Val)) (bad : List Val) (post : List (List Val))
     (hfind : Spec.findTable sdb table = some st) (hsel : Spec.selects st w = some sel)
+    (hset : Engine.checkSetColumns (Spec.fieldsOfTable st) [] (sets.map (·.1)) = none)
     (hsplit : selVals st sel = pre ++ bad :: post)
     (hpre : ∀ v ∈ pre, specAssign st.cols sets v ≠ none) (hbad : specAssign st.cols sets bad = none) :
     Spec.specUpdate sdb table sets w = none ∧
@@ -266,6 +269,11 @@ theorem evalUpdate_kth_refused_spec (db : Engine.DB) (pt sch : Levels) (tbls : L
   subst hf
   change ∀ v ∈ pre, specAssign schema sets v ≠ none at hpre
   change specAssign schema sets bad = none at hbad
+  change Engine.checkSetColumns (schema.map fun fd => (⟨[], fd.name.toUTF8.toList⟩ : Exec.Field)) []
+    (sets.map (·.1)) = none at hset
+  have hcc : checkColumns schema (sets.map fun p => Engine.bytesToName p.1) = none := by
+    have := checkSetColumns_none_checkColumns schema _ hset
+    rwa [List.map_map] at this
   obtain ⟨s1, efetch, hs1, hc1⟩ := fetchTable_cat h.cat table t ht schema hsch hdec
   obtain ⟨efilter, hsl⟩ := filterIds_selects table schema (rowsOf schema (live t)) w sel hsel
   obtain ⟨_, hIt, _, _, _⟩ := h.cat.tree t (Cat.tb_mem ht)
@@ -285,7 +293,7 @@ theorem evalUpdate_kth_refused_spec (db : Engine.DB) (pt sch : Levels) (tbls : L
   obtain ⟨hndPre, hndPost, hdisj⟩ := hnd'
   have hlenPre : idsPre.length = pre.length := by rw [← hpre2, List.length_map]
   -- the rows before the bad one are rewritten
-  obtain ⟨s', t', logs, ego, hc', hl'⟩ := evalUpdate_go_prefix db table pt sch schema hsch sets (rb :: idsPost)
+  obtain ⟨s', t', logs, ego, hc', hl'⟩ := evalUpdate_go_prefix db table pt sch schema hsch sets (rb :: idsPost) hcc
     idsPre s1 tbls t [] hc1 ht hndPre
     (fun r hr => by
       obtain ⟨c, hc, hck, m, hm, hr2⟩ := mem_rowsOf_cell (hmemsel r (List.mem_append_left _ hr))
@@ -309,12 +317,12 @@ theorem evalUpdate_kth_refused_spec (db : Engine.DB) (pt sch : Levels) (tbls : L
   have hno' : specAssign schema sets (schema.map fun fd => get m fd.name) = none := by
     rw [← hr2, hrb]; exact hbad
   obtain ⟨e, s2, he, hkind, hs2, hc2⟩ := update_refused_cat hc' table t' (mem_setTable_self t' ht) schema hsch sets
-    c hcl' m hm hno'
+    hcc c hcl' m hm hno'
   rw [hck] at he
   have hcat2 : Cat s2 pt sch (setTable tbls table t') := hc2
   refine ⟨e, { db with store := s2 }, t', ?_, hkind, rfl, ⟨hcat2, ?_⟩⟩
   · rw [evalUpdate_nocol db table sets w hnocol]
-    simp only [Engine.fetchForExec, Engine.liftS, efetch, efilter, hids]
+    simp only [Engine.fetchForExec, Engine.liftS, efetch, hset, efilter, hids]
     exact ego.trans (evalUpdate_go_first_err db table _ _ rb idsPost s' s2 _ e he)
   · -- the abstraction: the first `pre.length` selected rows rewritten
     have hlen : sel.length = (live t).length := by
